@@ -124,14 +124,18 @@ PROPS["C22"] = dict(
 
 # --------------------------------------------------------------------------- C08
 PROPS["C08"] = dict(
-    functions=["revm::JournaledState::transfer (crates/revm/src/journaled_state.rs): every path of its MIR control-flow graph"],
+    functions=["revm::JournaledState::transfer (crates/revm/src/journaled_state.rs): every path of its MIR control-flow graph",
+               "revm::JournaledState::selfdestruct: every path, with the two `address != target` branches correlated",
+               "revm::handler::mainnet::reimburse_caller (crates/revm/src/handler/mainnet/post_execution.rs): every path"],
     bounds="all entry->return paths of the (acyclic) CFG; a store through a balance reference is classified by the origin of the stored value "
            "(checked_sub(.., amount) payload = debit, checked_add / saturating_add / += amount = credit, anything else = free integer)",
-    outside="the per-transaction sum over all accounts (whole run), fee burning and blob fee accounting, selfdestruct and create_account_checkpoint balance moves, "
-            "reward/reimburse payments (journal + hash maps: not encodable, DESIGN §2); that debit and credit hit the intended two accounts (from/to identity is not tracked)",
+    outside="the per-transaction sum over all accounts (whole run), fee burning and blob fee accounting, create_account_checkpoint and deduct_caller / "
+            "reward_beneficiary balance moves, the AMOUNTS credited by selfdestruct / reimburse_caller (only that the credit happens on every path that needs it); "
+            "that debit and credit hit the intended accounts (account identity is not tracked beyond address != target)",
     assumptions=["paths returning a database error abort the transaction and are not constrained", "branch conditions abstracted to free choices",
                  "z3 4.8.12 and cvc5 1.0 agree; a sat path is replayed on the real JournaledState by the native tool"],
-    jobs=[dict(name="e3::transfer_conservation", fn=jobs_e3.run_transfer_conservation)],
+    jobs=[dict(name="e3::transfer_conservation", fn=jobs_e3.run_transfer_conservation),
+          dict(name="e3::selfdestruct_and_reimburse_value_moves", fn=jobs_e3.run_value_moves)],
 )
 
 # --------------------------------------------------------------------------- C09
@@ -384,7 +388,8 @@ CLAIMS = {
         text="The one primitive through which calls move value, JournaledState::transfer, is searched over all paths of its MIR control-flow graph (z3 and cvc5) for an "
              "outcome - success, OutOfFunds, OverflowPayment - on which the number of debits differs from the number of credits of the transferred amount; a model is "
              "replayed on the real journaled state with balances at the 2^256 boundary.",
-        note="Partial: only `transfer` (the failed-transfer / overflowing-balance clause of the property); the transaction-level sum, fees and selfdestruct are outside.",
+        note="Partial: `transfer` (debits == credits on every outcome), `selfdestruct` (a zeroed balance with a different beneficiary is always credited) and "
+             "`reimburse_caller` (the caller is credited on every non-error path); amounts, the transaction-level sum and the other fee moves are outside.",
         technique="SMT path search (z3+cvc5) over the MIR control-flow graph with debit/credit classification of balance stores; native replay",
         engine="smt-mir", design_ref="DESIGN.md §5 C08"),
     "C09": dict(
